@@ -74,6 +74,7 @@ PHASES = {
         {"pkg": "e2", "test": "TestC11Pipelined", "phase": "C11/pipelined-connect"},
         {"pkg": "e2", "test": "TestC11PeersFailTogether", "phase": "C11/peers-fail-together"},
         {"pkg": "e2", "test": "TestC11GracefulShutdown", "phase": "C11/graceful-shutdown"},
+        {"pkg": "e2", "test": "TestC11SlowAcks", "phase": "C11/late-answers-to-every-copy"},
     ],
     "C05": [
         {"pkg": "e2", "test": "TestC05StoreBeforeAck", "phase": "C05/store-before-ack"},
@@ -155,19 +156,19 @@ META = {
         "engine": "E4-schedx (+ free-running -race pass)",
         "technique": "stateless model checking of the real shared structures under a cooperative scheduler: every interleaving of 3 threads at lock / lock-free-hash operations up to a preemption bound (iterative context bounding), linearizability oracle; plus a separate free-running race-detector pass",
         "text": "13 three-thread scenarios on colliding keys over the session registry, identifier pool, in-flight table, both timeout lists, subscription and retained tries, replicated session/subscription state and the per-session filter list; sync and gotomic are replaced by scheduler-aware shims through a build overlay regenerated from the working tree on every run; every schedule with at most 2 (quick) / 3 (thorough) preemptions is executed on a fresh instance and its (results, final observation) must be explained by a sequential order of the operations consistent with real-time order; deadlocks and panics are violations. The same bodies then run free on real goroutines under the race detector (sampling, reported separately).",
-        "note": "Choice points are synchronisation operations only: unsynchronised accesses are visible to the race pass, not to the scheduler; gotomic's internal CAS loops are trusted; each hash operation is one atomic step. Round-4 additions: operations can be guarded (a client that acknowledges only once it has read the PUBLISH blocks at a scheduling point until then, and sequential orders in which the guard does not hold are infeasible); the message log's appends are explored too (the store opens the commit log through a lock-taking proxy because module-cache files cannot be overlaid); concurrent exact-topic retained lookups below a leaf and in an empty branch. Round 5: session and retained-message writes running concurrently; a target file that no longer uses package sync is taken as it is (its accesses are then visible to the race pass only). Round 6: a list returned by GetTopics must go on saying what it said (absolute outcome check); C18's split-packet phase (state shared between connections).",
+        "note": "Choice points are synchronisation operations only: unsynchronised accesses are visible to the race pass, not to the scheduler; gotomic's internal CAS loops are trusted; each hash operation is one atomic step. Round-4 additions: operations can be guarded (a client that acknowledges only once it has read the PUBLISH blocks at a scheduling point until then, and sequential orders in which the guard does not hold are infeasible); the message log's appends are explored too (the store opens the commit log through a lock-taking proxy because module-cache files cannot be overlaid); concurrent exact-topic retained lookups below a leaf and in an empty branch. Round 5: session and retained-message writes running concurrently; a target file that no longer uses package sync is taken as it is (its accesses are then visible to the race pass only). Round 6: a list returned by GetTopics must go on saying what it said (absolute outcome check); C18's split-packet phase (state shared between connections). Round 7: the graceful-shutdown phase and the whole-broker retransmission scripts are part of this check; E4 shims sync in every target file that imports it; watched sequential reference runs.",
     },
     "C15": {
         "engine": "E3-crashx",
         "technique": "exhaustive crash-point enumeration: the real consumer runs in child processes that are killed with SIGKILL at named hook points (offset x phase), over bounded sequences of crash/restart rounds with appends in between, on real files",
         "text": "For small logs every (offset, phase) crash point with phases callback-entered / callback-returned / before-persist / after-persist / stopped by cancellation / stopped by callback error, all ordered pairs of rounds with 0, 1 or 10 appends in between (thorough: more lengths, all triples for N=8); for a 2600-entry log (segments of 500, truncation at 2000) crash points at every segment/truncation edge and sampled batch positions (thorough: every offset) incl. before/after-truncate, plus pairs over 21 boundary offsets. Per incarnation offsets are consecutive; a restart begins no later than one past the last completed offset and replays at most the last completed one plus the one in progress; payloads match their offsets; a final run hands over everything.",
-        "note": "Crash model: process death (SIGKILL), kernel page cache survives; torn 8-byte writes and power loss are outside the model. 'Handed to the delivery scheduler' is additionally exercised end to end: the real SchedulePublishes + writer queue behind the consumer with the writer stalled by a subscriber that stops reading (E2 phase shared with C02), incl. a 5600-message backlog. The consumer callback also reads a message three offsets back through Log.Get while the consumption goes on (the writer lags behind the consumer); a schedule-exploration phase (E4) runs three concurrent appenders with the commit-log calls as scheduling points and reads every offset back. Round 5: the child runs the broker's own SchedulePublishes in front of a recording writer (hook VerifScheduleWriter) for every phase except the callback-error one. Round 6: the consumer process offers its own log a publish of exactly the commit log's maximum payload size (refused), then appends two more, before consuming.",
+        "note": "Crash model: process death (SIGKILL), kernel page cache survives; torn 8-byte writes and power loss are outside the model. 'Handed to the delivery scheduler' is additionally exercised end to end: the real SchedulePublishes + writer queue behind the consumer with the writer stalled by a subscriber that stops reading (E2 phase shared with C02), incl. a 5600-message backlog. The consumer callback also reads a message three offsets back through Log.Get while the consumption goes on (the writer lags behind the consumer); a schedule-exploration phase (E4) runs three concurrent appenders with the commit-log calls as scheduling points and reads every offset back. Round 5: the child runs the broker's own SchedulePublishes in front of a recording writer (hook VerifScheduleWriter) for every phase except the callback-error one. Round 6: the consumer process offers its own log a publish of exactly the commit log's maximum payload size (refused), then appends two more, before consuming. Round 7: stored messages carry six topic names (among them filter-like and $SYS names); E5 phase real-process-lagging-consumer on run() of cmd/wasp.",
     },
     "C18": {
         "engine": "E2-brokermc",
         "technique": "exhaustive enumeration of a bounded byte-stream grammar (valid templates x structure-aware mutations x connection contexts) against the in-process broker in crash-contained worker processes, with a witness round trip after every stream",
         "text": "About 20k (quick) / 60k (thorough) byte streams: 20 valid packet templates (all 14 types, CONNECT and SUBSCRIBE variants), truncated at every offset, with every other first byte (type and flag nibbles), 10 remaining-length encodings incl. over-long and 5-byte forms, every inner length prefix in {0, true-1, true+1, 0xffff}, identifier 0/65535, QoS 3, empty topic lists and protocol-level oddities, each as first packet, after CONNECT and after CONNECT+SUBSCRIBE, plus all ordered pairs of valid packets. After each stream the worker process must be alive, the witness connections open, and a witness QoS 1 publish must be acknowledged and delivered within 10 s.",
-        "note": "Limit: streams outside the grammar are not covered (the claim is the grammar and its size); a client that stops reading is a transport-level behaviour outside the quantifier; transient memory for an announced-but-unsent body is not judged. A path that makes no progress for 75 s of real time is reported as a hang (a spinning or self-deadlocked broker goroutine never lets virtual time advance). After every stream a witness also publishes into the hostile client's own filter space. A second phase sends a valid large PUBLISH in two pieces while up to 45 other clients connect in between. Streams of QoS 2 publishes that are never released, under the identifiers the broker is about to use for its own deliveries to that client (the hostile client then does not auto-complete handshakes). Round 5: SUBSCRIBE / UNSUBSCRIBE templates on the filter the witness holds; a phase in which 22 or 45 clients each send a PUBLISH announcing a 21 MB body and close the connection (found the log-consumer wedge fixed in 0e48f9a). Round 6: phase silent-reader.",
+        "note": "Limit: streams outside the grammar are not covered (the claim is the grammar and its size); a client that stops reading is a transport-level behaviour outside the quantifier; transient memory for an announced-but-unsent body is not judged. A path that makes no progress for 75 s of real time is reported as a hang (a spinning or self-deadlocked broker goroutine never lets virtual time advance). After every stream a witness also publishes into the hostile client's own filter space. A second phase sends a valid large PUBLISH in two pieces while up to 45 other clients connect in between. Streams of QoS 2 publishes that are never released, under the identifiers the broker is about to use for its own deliveries to that client (the hostile client then does not auto-complete handshakes). Round 5: SUBSCRIBE / UNSUBSCRIBE templates on the filter the witness holds; a phase in which 22 or 45 clients each send a PUBLISH announcing a 21 MB body and close the connection (found the log-consumer wedge fixed in 0e48f9a). Round 6: phase silent-reader. Round 7: announced lengths from 40 below to 8 above the log's entry limit; phase slow-connect (20/25 connections trickling their CONNECT).",
     },
     "C17": {
         "engine": "E2-brokermc",
@@ -179,96 +180,96 @@ META = {
         "engine": "E2-brokermc",
         "technique": "exhaustive enumeration of subscriber placements x unreachable-destination subsets x topic/filter pairs on the 2-3 node in-process broker with recording log proxies and fault-injecting inter-node transport",
         "text": "For 2 and 3 nodes: every assignment of {matching, non-matching} subscribers to nodes, every subset of remote nodes unreachable at publish time, 2-4 topic/filter pairs, QoS 1 and 2 (thorough: publisher on either node, subscription gossip of one node withheld). Each node's log must see exactly one successful append iff it hosts a matching subscription known to the publishing node and is reachable, subscribers receive the message exactly once from their own node, an unreachable destination does not stop the others, and the acknowledgement is present iff no destination failed.",
-        "note": "Destinations 'known to the publishing node' are computed from that node's subscription listing with the reference matcher (not from the lookup the publish path uses). Also: the topic published once before anybody subscribes, a second matching subscriber created last on a node, slow (not unreachable) destinations, a remote subscriber that unsubscribed without the publisher being told yet, a local session whose subscription was re-created through another node's RPC API. The inter-node connections use the production dial options (rpc.GRPCClientOptions: interceptor chain, TLS) over the in-memory listener. Round 5: an unreachable node is a real client connection whose transport is refused (the call fails or blocks as the production call options make it), not an error returned by the harness. Round 6: a subscription that comes and goes within one gossip round on a node without matching subscriber (absolute demand: no append there). E5 phase real-cluster-wiring: two real cmd/wasp brokers on loopback ports, matching subscribers on both, 5 publishes while node B is reachable and 5 after a relay in front of its RPC port was cut (never acknowledged, the local subscriber still served): an integration scenario for the wiring of package main, not an enumeration. One-late-answer deviations (client-write, log-append, rpc) around the publish with every node hosting a subscriber.",
+        "note": "Destinations 'known to the publishing node' are computed from that node's subscription listing with the reference matcher (not from the lookup the publish path uses). Also: the topic published once before anybody subscribes, a second matching subscriber created last on a node, slow (not unreachable) destinations, a remote subscriber that unsubscribed without the publisher being told yet, a local session whose subscription was re-created through another node's RPC API. The inter-node connections use the production dial options (rpc.GRPCClientOptions: interceptor chain, TLS) over the in-memory listener. Round 5: an unreachable node is a real client connection whose transport is refused (the call fails or blocks as the production call options make it), not an error returned by the harness. Round 6: a subscription that comes and goes within one gossip round on a node without matching subscriber (absolute demand: no append there). E5 phase real-cluster-wiring: two real cmd/wasp brokers on loopback ports, matching subscribers on both, 5 publishes while node B is reachable and 5 after a relay in front of its RPC port was cut (never acknowledged, the local subscriber still served): an integration scenario for the wiring of package main, not an enumeration. One-late-answer deviations (client-write, log-append, rpc) around the publish with every node hosting a subscriber. Round 7: phase failed-peer (crash, 0..all clients reconnect elsewhere before the failure is reported, or their session records never arrived; afterwards no subscription of the failed node, publishes acknowledged and delivered once).",
     },
     "C13": {
         "engine": "E2-brokermc",
         "technique": "exhaustive cross product of will parameters x termination causes x watcher placements on the 1-3 node in-process broker under virtual time",
         "text": "Will topic {w, w/x} x QoS {0,1,2} x retain x mount point {default, m1} x cause {DISCONNECT, connection loss, keep-alive expiry, protocol error, failure of the hosting node} x every non-empty subset of watcher nodes on 1-2 (quick) / 1-3 (thorough) nodes, three watchers (w, w/+, #) per node plus one in another mount point: after DISCONNECT nobody receives the will within 10 s; otherwise every surviving watcher of the same mount point whose filter matches receives it exactly once with the topic as the client wrote it, and the foreign watcher receives nothing.",
-        "note": "Watchers acknowledge promptly; which survivor publishes the will after a node failure is free; the retain flag / QoS of the delivered copy are not judged here. Also: empty will payload; a later client with the same client id in another mount point; a second tenant's will-bearing session on the failing node; failure detected 500 ms apart on three nodes; clean DISCONNECT followed by node failure with the removal overtaking the creation, or with the removal gossip lost and only a full-state exchange in between. Also: connection loss while the other nodes do not answer (their watchers' subscriptions still listed): the dying session's own node still owes its watchers the will. Round 5: connection lost before the CONNACK was written; retained wills with an empty payload. Round 6: a will larger than a gossip datagram. One-late-answer deviations under each will-owing cause (2 nodes, watchers on both).",
+        "note": "Watchers acknowledge promptly; which survivor publishes the will after a node failure is free; the retain flag / QoS of the delivered copy are not judged here. Also: empty will payload; a later client with the same client id in another mount point; a second tenant's will-bearing session on the failing node; failure detected 500 ms apart on three nodes; clean DISCONNECT followed by node failure with the removal overtaking the creation, or with the removal gossip lost and only a full-state exchange in between. Also: connection loss while the other nodes do not answer (their watchers' subscriptions still listed): the dying session's own node still owes its watchers the will. Round 5: connection lost before the CONNACK was written; retained wills with an empty payload. Round 6: a will larger than a gossip datagram. One-late-answer deviations under each will-owing cause (2 nodes, watchers on both). Round 7: cause malformed-packet (a SUBSCRIBE with an empty body: the decoder runs off the buffer).",
     },
     "C12": {
         "engine": "E2-brokermc",
         "technique": "explicit enumeration of ordered event selections (old-session ping/subscribe/disconnect/drop, single gossip deliveries, new-session subscribe) on a 2-node in-process broker with manually scheduled gossip",
         "text": "Two (thorough: three) connections sharing one client identifier on the same or different nodes, the first record gossiped beforehand; every ordered selection of up to 4 (quick) / 5 (thorough) of 9 events incl. delivering each pending broadcast individually. The new CONNECT is always accepted; once the old session's node holds the new record its next PINGREQ is not answered and it is torn down; the new session's record and subscriptions never disappear from a node that listed them; after all gossip every node resolves the identifier to the newest session.",
-        "note": "Before the displaced session's node has received the new record (read from that node's listing) a PINGRESP is legal; run-to-quiescence between events. Also: the new session's own DISCONNECT / drop as events, the accepting node's clock 30 s behind / ahead (outside the stated quantifier, final oracles only), and a chain-of-three phase on three nodes where the third connection meets a node that still holds both earlier records. A seam phase pauses the connection manager right after its look-up of the old record, after the removal and after the creation of the new record, and lets the previous connection DISCONNECT, drop or ping at that very point (12 x 2 placements): the new connection must be accepted and the identifier resolve to it alone. Round 6: the accepting node 45 s and one hour behind.",
+        "note": "Before the displaced session's node has received the new record (read from that node's listing) a PINGRESP is legal; run-to-quiescence between events. Also: the new session's own DISCONNECT / drop as events, the accepting node's clock 30 s behind / ahead (outside the stated quantifier, final oracles only), and a chain-of-three phase on three nodes where the third connection meets a node that still holds both earlier records. A seam phase pauses the connection manager right after its look-up of the old record, after the removal and after the creation of the new record, and lets the previous connection DISCONNECT, drop or ping at that very point (12 x 2 placements): the new connection must be accepted and the identifier resolve to it alone. Round 6: the accepting node 45 s and one hour behind. Round 7: phase real-session-identifiers (2-3 connections with one client identifier authenticated by the built-in handlers, same instant / 1 ms / 1 s apart).",
     },
     "C11": {
         "engine": "E2-brokermc",
         "technique": "explicit enumeration of a session-script grammar x termination causes x gossip delivery policies on the 1-3 node in-process broker under virtual time",
         "text": "Every script connect(keep-alive 2|10 s) . up to 2 (quick) / 3 (thorough) middle events (subscribe sets, unsubscribes, ping, idle 1 s / 3.5 s / 0.9K / 1.4K, also directly after CONNACK) . cause (none, DISCONNECT, drop, silence > 2K, second CONNECT, displacement on the same / another node, failure of the hosting node) under gossip policies auto / withhold-all / reverse / withhold-one; the session must survive every legal script, and after a cause the connection is closed, record and subscriptions vanish from every node, nothing more is written to it, and every listed subscription belongs to a listed session connected on the node it names.",
-        "note": "Scripts also contain deliveries to the session followed by silence, a connection lost between SUBSCRIBE and SUBACK, and keep-alive values at the 16-bit edges (32767, 32768, 32769, 65535). A path keeps being judged after the known finding matched. Only silences <= 1.4 x keep-alive are required to be survived (any allowance >= 1.5 x keep-alive satisfies the oracle); the broker may, not must, end a session silent for > 2K; clean broker shutdown is outside the quantifier. Also: the second connection accepted by a node that has not heard of the first session yet (record arrives afterwards: the newer connection must stay served, the older be displaced and its record removed), and session ends left in a node's transmit queue while a third node is declared failed. Round 5: another client's CONNECT accepted while the connection breaks before the CONNACK can be written (nothing of it may remain). Round 6: phases pipelined-connect (packets sent behind CONNECT without waiting for CONNACK, in one write or cut at 30 / 4200 bytes) and peers-fail-together (two nodes declared failed 0 to 6 s apart). One-late-answer deviations (client-write 1..10) on short scripts with keep-alive 10 s.",
+        "note": "Scripts also contain deliveries to the session followed by silence, a connection lost between SUBSCRIBE and SUBACK, and keep-alive values at the 16-bit edges (32767, 32768, 32769, 65535). A path keeps being judged after the known finding matched. Only silences <= 1.4 x keep-alive are required to be survived (any allowance >= 1.5 x keep-alive satisfies the oracle); the broker may, not must, end a session silent for > 2K; clean broker shutdown is outside the quantifier. Also: the second connection accepted by a node that has not heard of the first session yet (record arrives afterwards: the newer connection must stay served, the older be displaced and its record removed), and session ends left in a node's transmit queue while a third node is declared failed. Round 5: another client's CONNECT accepted while the connection breaks before the CONNACK can be written (nothing of it may remain). Round 6: phases pipelined-connect (packets sent behind CONNECT without waiting for CONNACK, in one write or cut at 30 / 4200 bytes) and peers-fail-together (two nodes declared failed 0 to 6 s apart). One-late-answer deviations (client-write 1..10) on short scripts with keep-alive 10 s. Round 7: phase graceful-shutdown (Manager.DisconnectClients with 1/2/3/6 sessions, alone or next to a surviving node); the world keeps the default stdout audit recorder, which fails for the harness's short session identifiers.",
     },
     "C05": {
         "engine": "E2-brokermc",
         "technique": "explicit enumeration of publisher scripts x subscriber placements x write-fault subsets on a 2-node in-process broker with recording / fault-injecting log proxies and inter-node transport",
         "text": "Every publisher script up to depth 3 (quick) / 4 (thorough) over PUBLISH QoS 0/1/2 (fresh or repeated identifier, DUP or not), PUBREL for a pending / completed / unknown identifier and a handshake timeout, for destination sets {}, {local}, {remote}, {local, remote} and every subset of {local log write fails, remote node unreachable}; an acknowledgement must be preceded by a successful append on every destination log, a failed destination withholds it, and each QoS 2 handshake forwards exactly once (on PUBREL), never on PUBLISH alone or on repeats.",
-        "note": "Global sequence numbers order proxy events against client reads; what happens to the session after a repeated QoS 2 PUBLISH is recorded, not judged. Also: a client of another mount point with the publisher's client identifier releasing the publisher's pending identifier (must forward nothing), and a remote node that answers but whose log refuses the append. Round 5: the topic is published once before anybody subscribed; retain-flag variants under each write fault. Round 6: a phase with remote appends that take 0.9 to 7 s (at most one append per publish and handshake).",
+        "note": "Global sequence numbers order proxy events against client reads; what happens to the session after a repeated QoS 2 PUBLISH is recorded, not judged. Also: a client of another mount point with the publisher's client identifier releasing the publisher's pending identifier (must forward nothing), and a remote node that answers but whose log refuses the append. Round 5: the topic is published once before anybody subscribed; retain-flag variants under each write fault. Round 6: a phase with remote appends that take 0.9 to 7 s (at most one append per publish and handshake). Round 7: every event publishes on its own topic and what reaches a log must carry it; phase real-log-failure (the log directory becomes unusable one or zero entries before a segment is full; the oracle reads the log back).",
     },
     "C03": {
         "engine": "E2-brokermc",
         "technique": "explicit enumeration of client response scripts (all interleavings of per-delivery automata) on the complete in-process broker under virtual time, real 1 s expiry ticker",
         "text": "All interleavings of acknowledge / wrong-type / wrong-identifier / silence-past-deadline / disconnect events over 2 in-flight deliveries (QoS 1 and QoS 2; thorough: 3 deliveries over 2 sessions) up to 6-7 events, with the production identifier range and with a 3-identifier pool; the oracle keys on the deadline the implementation registered: every pending delivery is sent again with the same identifier after each silence, PUBREL follows PUBREC, nothing is sent after completion during a 60 s horizon, identifiers of finished deliveries are free and a further message still gets one.",
-        "note": "Run-to-quiescence between client events; the client drains its socket; DUP flag not judged. Also in the scripts: a bystander with other QoS levels on the same filters, a failed first transmission (write error injected at the broker's end of the connection), stray QoS 2 acknowledgements for somebody else's identifier, displacement of the subscriber by a newer connection. A second phase (timer-phase) sends one delivery to a silent subscriber for every tenth of a second of sweep-ticker phase x registration time (also 2.5-3.5 s after an acknowledged earlier delivery) and requires a retransmission within 8 s. A shorter script family adds: the subscriber publishing at QoS 2 under the identifier of a delivery in flight to it (the broker may end the session, otherwise the delivery must go on), and one retransmission round whose socket writes fail. Round 5: two registrations falling into one one-second bucket and reaching the queue in reverse order (ack proxy); a bystander granted the reserved QoS 3; an accounting oracle (identifiers taken == deliveries legitimately in flight); the timer phase drops the silent subscriber at the end and requires an empty pool; a phase with session identifiers A and A+\"1\" (from the authentication seam) and packet identifiers 12 and 2 in flight. Round 6: the silent-reader phase (a subscriber that never reads; retransmissions to the others go on).",
+        "note": "Run-to-quiescence between client events; the client drains its socket; DUP flag not judged. Also in the scripts: a bystander with other QoS levels on the same filters, a failed first transmission (write error injected at the broker's end of the connection), stray QoS 2 acknowledgements for somebody else's identifier, displacement of the subscriber by a newer connection. A second phase (timer-phase) sends one delivery to a silent subscriber for every tenth of a second of sweep-ticker phase x registration time (also 2.5-3.5 s after an acknowledged earlier delivery) and requires a retransmission within 8 s. A shorter script family adds: the subscriber publishing at QoS 2 under the identifier of a delivery in flight to it (the broker may end the session, otherwise the delivery must go on), and one retransmission round whose socket writes fail. Round 5: two registrations falling into one one-second bucket and reaching the queue in reverse order (ack proxy); a bystander granted the reserved QoS 3; an accounting oracle (identifiers taken == deliveries legitimately in flight); the timer phase drops the silent subscriber at the end and requires an empty pool; a phase with session identifiers A and A+\"1\" (from the authentication seam) and packet identifiers 12 and 2 in flight. Round 6: the silent-reader phase (a subscriber that never reads; retransmissions to the others go on). Round 7: early-expiry oracle at the queue seam (no re-registration earlier than 1 s before the registered deadline unless the queue accepted an acknowledgement in between); event other-session-ends; exhausted-pool probe; phase reconnect-under-same-client-id with the built-in handlers' session identifiers.",
     },
     "C02": {
         "engine": "E2-brokermc",
         "technique": "explicit enumeration of publish-event sequences x message-log states on the complete in-process broker under virtual time (synctest), run to quiescence after every event",
         "text": "(plus a stalled-subscriber phase: a subscriber that stops reading while 400-1300 further messages are published across segment and truncation boundaries, then reads again, must still get every acknowledged publish) Every publish sequence (2 publishers x QoS 0/1/2) up to depth 2-3 (quick) / 3-4 (thorough) from an empty log and from logs pre-filled to 19 lengths around batch (10), segment (500) and truncation (1500/1000) boundaries, with and without a restarted consumer; payload sizes at the encoder's length edges; plus a boundary sweep over P in 1..2600. Every publish whose PUBACK/PUBCOMP the publisher read must appear, topic and payload intact, at each of three connected subscribers (QoS 0/1/2) within 30 s of virtual time.",
-        "note": "One node (remote delivery is C14); subscribers acknowledge promptly; real commit log on /dev/shm; run-to-completion between events; the stalled subscriber uses QoS 0 (net.Pipe serialises concurrent writers with a mutex that synctest cannot see through). Also: a subscriber that reached its subscription through subscribe / unsubscribe / subscribe again, and QoS 2 publishers that answer PUBREC only 6 s later (a PUBCOMP then still obliges delivery). Round 5: QoS 2 publishers whose PUBRELs only follow after the whole sequence; subscribers whose CONNACK write returns 1 s after the bytes reached them. Round 6: a subscriber with QoS 2 publishes of its own pending under the identifiers the broker is about to use; retained and empty-payload publishes; ONE LATE ANSWER: every depth-2 sequence under each of the first 30 broker-to-client writes and 3 log appends returning 1.5 s late (deviation bound 1; E2 is built with channel-based locks so that virtual time advances while a goroutine is kept waiting).",
+        "note": "One node (remote delivery is C14); subscribers acknowledge promptly; real commit log on /dev/shm; run-to-completion between events; the stalled subscriber uses QoS 0 (net.Pipe serialises concurrent writers with a mutex that synctest cannot see through). Also: a subscriber that reached its subscription through subscribe / unsubscribe / subscribe again, and QoS 2 publishers that answer PUBREC only 6 s later (a PUBCOMP then still obliges delivery). Round 5: QoS 2 publishers whose PUBRELs only follow after the whole sequence; subscribers whose CONNACK write returns 1 s after the bytes reached them. Round 6: a subscriber with QoS 2 publishes of its own pending under the identifiers the broker is about to use; retained and empty-payload publishes; ONE LATE ANSWER: every depth-2 sequence under each of the first 30 broker-to-client writes and 3 log appends returning 1.5 s late (deviation bound 1; E2 is built with channel-based locks so that virtual time advances while a goroutine is kept waiting). Round 7: retained topics t/$k; variant with an empty log and a consumer state file that holds 0.",
     },
     "C01": {
         "engine": "E1-seqx + E2-brokermc",
         "technique": "exhaustive (filter, topic) enumeration and bounded subscription histories on the real trie / replicated state vs an MQTT 4.7 reference; explicit event exploration of the in-process broker for bytes on the wire",
         "text": "All 318k (filter, topic) pairs of up to 4 levels over {a,b,c,+,#,empty} on the real trie; every ordered pair (thorough: triple) of 53 filters with remove/re-insert for independence; every Create/Delete/DeleteSession history of depth 4 (quick) / 5 (thorough) over 2 sessions x 4 filters with ByPattern compared on 14 topics after each step and a differential equal-active-set oracle; replication echoes (own full state merged back, last broadcast redelivered) inside the histories; plus a wire phase on 1 and 2 nodes: a session holding one or an ordered pair of 10 representative filters, or reaching its set through subscribe/unsubscribe/re-subscribe histories, must read exactly one PUBLISH per matching active subscription for each of 5 topics, verbatim, while another session gets only its own.",
-        "note": "$-topics and invalid filters are outside the alphabet; the known empty-level finding is matched by recomputing the truncation the defect performs. The wire phase also lets every node be told that its peers (re)joined, and a client of another mount point connect with the subscribed session's client identifier, before the publishes: neither may cost the session a delivery. Round 5: every topic is also published once before anybody subscribes; a variant in which nothing ever happens on the publisher's node except the arrival of gossip; a third node failing (and its sessions being purged 3 s later) while the session's subscriptions are still in its node's transmit queue. Round 6: the answer to the first forwarded publish is lost on the way back (the peer stored the message).",
+        "note": "$-topics and invalid filters are outside the alphabet; the known empty-level finding is matched by recomputing the truncation the defect performs. The wire phase also lets every node be told that its peers (re)joined, and a client of another mount point connect with the subscribed session's client identifier, before the publishes: neither may cost the session a delivery. Round 5: every topic is also published once before anybody subscribes; a variant in which nothing ever happens on the publisher's node except the arrival of gossip; a third node failing (and its sessions being purged 3 s later) while the session's subscriptions are still in its node's transmit queue. Round 6: the answer to the first forwarded publish is lost on the way back (the peer stored the message). Round 7: topics with a `$` level below the first (a/$b) in the matcher and wire alphabets; the world runs the broker's own tap dispatcher, and an environment with a recorder that takes 1 s per message under a burst of 48 publishes must not cost a delivery.",
     },
     "C07": {
         "engine": "E1-seqx + E2-brokermc",
         "technique": "exhaustive bounded Set/Delete histories on the real retained-message state (origin + replica) vs a map reference; explicit event exploration on the in-process broker for the wire half",
         "text": "Every retained Set/Delete sequence of length 1..4 (quick) / 1..5 (thorough) over 5 prefix-sharing topics and 2 payloads on node A with node B fed by A's broadcasts; after each sequence Get(f) for 176 filters (<=3 levels over {a,b,c,+}, trailing #, plus root-level wildcards) on both nodes equals the last non-empty payload per matching topic.",
-        "note": "The E1 phase also feeds further replicas with the same broadcasts in every other order (<=3 updates) or reversed. The E2 wire phase enumerates publish(topic, retain, payload incl. empty) / subscribe(one or several filters in one packet) sequences on 1-2 nodes: the late subscriber must read SUBACK followed by exactly one retain-flagged PUBLISH per subscription and matching topic with a non-empty last retained payload; live copies carry no retain flag. A two-publisher phase: Set/Delete on one topic issued on two nodes, every subset of the broadcasts held back until the end; both nodes must end with what the last change left. The wire phase also has retained wills (with payload and empty) of dropped connections. Round 5: the two-publisher phase under a clock that never advances (nothing held); the snapshot merged by a fresh node also carries a subscription without session identifier, which the receiver refuses. Round 6: phase late-answers: a retained QoS 1 publish under exactly one late answer of the environment with a subscriber arriving at that moment.",
+        "note": "The E1 phase also feeds further replicas with the same broadcasts in every other order (<=3 updates) or reversed. The E2 wire phase enumerates publish(topic, retain, payload incl. empty) / subscribe(one or several filters in one packet) sequences on 1-2 nodes: the late subscriber must read SUBACK followed by exactly one retain-flagged PUBLISH per subscription and matching topic with a non-empty last retained payload; live copies carry no retain flag. A two-publisher phase: Set/Delete on one topic issued on two nodes, every subset of the broadcasts held back until the end; both nodes must end with what the last change left. The wire phase also has retained wills (with payload and empty) of dropped connections. Round 5: the two-publisher phase under a clock that never advances (nothing held); the snapshot merged by a fresh node also carries a subscription without session identifier, which the receiver refuses. Round 6: phase late-answers: a retained QoS 1 publish under exactly one late answer of the environment with a subscriber arriving at that moment. Round 7: phase many-retained-while-writer-busy (10/26/40 retained topics, the writer held 0/0.3/1.5/2.6 s by another session's write).",
     },
     "C08": {
         "engine": "E1-seqx",
         "technique": "exhaustive enumeration of update sets x delivery permutations x batchings x duplications on the real merge code vs a newest-entry-wins reference",
         "text": "Update sets of up to 4 (quick) / 5 (thorough) broadcasts produced by the real mutators on two origins (clock offset 0 / -2.5 / +2.5 ticks, origins synchronised or not) for sessions, subscriptions, retained messages and a mixed alphabet; every permutation x contiguous batching and every single duplication is delivered to a fresh replica; replicas and both origins must list the per-key newest entry, removed entries staying removed.",
-        "note": "Ties between different values of one key at one timestamp are excluded (the logical clock is strictly increasing; offsets are not multiples of a tick). Batches are formed by concatenating the protobuf events. One session of the alphabets belongs to a client with an empty client identifier. Round 5: an E4 phase explores a local session removal racing with the merge of a newer remote copy of the same record (plus a retained write): the node must end where a replica fed with the same updates ends. Round 6: one origin's clock one hour ahead.",
+        "note": "Ties between different values of one key at one timestamp are excluded (the logical clock is strictly increasing; offsets are not multiples of a tick). Batches are formed by concatenating the protobuf events. One session of the alphabets belongs to a client with an empty client identifier. Round 5: an E4 phase explores a local session removal racing with the merge of a newer remote copy of the same record (plus a retained write): the node must end where a replica fed with the same updates ends. Round 6: one origin's clock one hour ahead. Round 7: stamps are wall-clock readings around the real present; origin B two hours ahead / nine hours behind; a snapshot is served between any two deliveries; a replica fed from origin A's snapshot and then every update again.",
     },
     "C10": {
         "engine": "E1-seqx",
         "technique": "exhaustive enumeration of node-history pairs x lost-gossip subsets x snapshot exchange modes on the real replicated state vs a newest-entry-wins reference",
         "text": "Every pair of histories (A: up to 3 operations, B: up to 1 (quick) / 2 (thorough)) over 8-10 session / subscription / retained mutators, every subset of the gossip between the nodes lost, then LocalState->MergeRemoteState A->B, B->A or both; a fresh node must list exactly what the sender lists, a lagging node must hold the newer of both copies (removals included), and after both directions the listings must be identical.",
-        "note": "No clock skew here (C08 covers it); reference computed from the decoded broadcasts each node has seen, and cross-checked against each node's listing before the exchange. One session of the alphabet belongs to a client with an empty client identifier. Round 5: the bytes of a snapshot handed out earlier must not change when a later one is assembled. Round 6: bulk removals (DeletePeer of the other node, DeleteSession) in the alphabet.",
+        "note": "No clock skew here (C08 covers it); reference computed from the decoded broadcasts each node has seen, and cross-checked against each node's listing before the exchange. One session of the alphabet belongs to a client with an empty client identifier. Round 5: the bytes of a snapshot handed out earlier must not change when a later one is assembled. Round 6: bulk removals (DeletePeer of the other node, DeleteSession) in the alphabet. Round 7: B's clock two hours ahead / nine hours behind (shorter histories of A at the quick depth).",
     },
     "C09": {
         "engine": "E1-seqx",
         "technique": "exhaustive bounded operation sequences on the real replicated state, mirror node fed with the queued broadcasts, listing comparison after every step",
         "text": "Every sequence of depth 4 (quick) / 5 (thorough) over 25 session / subscription / retained mutators incl. DeleteSession and DeletePeer bulk operations, from an empty node and from a node preloaded with another peer's entries; after each operation the origin's queue is drained into a mirror whose listing must equal the origin's, and every changed key must be named by that operation's broadcast.",
-        "note": "Strictly increasing logical clock through the verif hook VerifSetClock; one broadcast per operation is delivered in order (reordering is C08's subject). Additionally every sequence one operation shorter under a clock that never advances (all changes within one reading; in-order mirror only: equal subscription stamps are a genuine tie for reordered delivery); one session has an empty client identifier. Round 6: depth-2 sequences under the broker's default stdout audit recorder (it returns an error for session identifiers shorter than 8 characters).",
+        "note": "Strictly increasing logical clock through the verif hook VerifSetClock; one broadcast per operation is delivered in order (reordering is C08's subject). Additionally every sequence one operation shorter under a clock that never advances (all changes within one reading; in-order mirror only: equal subscription stamps are a genuine tie for reordered delivery); one session has an empty client identifier. Round 6: depth-2 sequences under the broker's default stdout audit recorder (it returns an error for session identifiers shorter than 8 characters). Round 7: QoS 3 subscription, 300-byte payload and 134-byte topic in the alphabet.",
     },
     "C16": {
         "engine": "E1-seqx + E2-brokermc",
         "technique": "exhaustive enumeration of credential tables x candidates on the real handlers vs a map model; explicit event exploration of refused/accepted CONNECTs on the in-process broker",
         "text": "Every credential table over 6 users (all subsets; every 2-field / 3-field / empty-mount-point shape per entry; every file order up to 3 (quick) / 4 (thorough) entries, rotations and reversals beyond) is loaded by the real FileHandler and probed with exact, wrong-password, other-entry-password, swapped, empty and absent candidates; the static handler is probed over a 5x5x5x5 value grid. Accepted iff the pair is in the table, with that entry's mount point.",
-        "note": "The file stores the password fingerprint (sha256 hex) in field 2, as the record type PasswordHash says; duplicate user names are not generated. The E2 wire phase puts both real stores behind a real CONNECT: a refused candidate gets a refusal CONNACK and leaves no session, subscription, retained message or will on any node even if it goes on to SUBSCRIBE / PUBLISH retained / drop with a will; an accepted one is listed in its entry's mount point and isolated accordingly. One configured password is the empty string (its fingerprint is the digest of nothing); small tables also get a locked account (empty fingerprint column) at every position, which no candidate may open. Round 5: an in-package phase (engine E5) compiles a test into cmd/wasp through an overlay and drives getAuthHandler: every configured static pair of a pool with leading/trailing blanks, tabs and newlines against every candidate pair, the file provider through its configured path, unknown provider names. Round 6: zero-length client identifier with a token-length password.",
+        "note": "The file stores the password fingerprint (sha256 hex) in field 2, as the record type PasswordHash says; duplicate user names are not generated. The E2 wire phase puts both real stores behind a real CONNECT: a refused candidate gets a refusal CONNACK and leaves no session, subscription, retained message or will on any node even if it goes on to SUBSCRIBE / PUBLISH retained / drop with a will; an accepted one is listed in its entry's mount point and isolated accordingly. One configured password is the empty string (its fingerprint is the digest of nothing); small tables also get a locked account (empty fingerprint column) at every position, which no candidate may open. Round 5: an in-package phase (engine E5) compiles a test into cmd/wasp through an overlay and drives getAuthHandler: every configured static pair of a pool with leading/trailing blanks, tabs and newlines against every candidate pair, the file provider through its configured path, unknown provider names. Round 6: zero-length client identifier with a token-length password. Round 7: 25 admissions after every refusal; non-UTF-8 user names and passwords against the handler cmd/wasp configures, panics reported as values.",
     },
     "C04": {
         "engine": "E1-seqx + E4-schedx",
         "technique": "exhaustive bounded operation sequences on the real in-flight queue vs a map model; exhaustive preemption-bounded interleavings for the concurrent clause",
         "text": "Every register/acknowledge/sweep sequence up to depth 4 (quick) / 5 (thorough) over 3 colliding keys, 2-4 packet kinds, equal / same-second / past / future deadlines, wrong-type and unknown-id acknowledgements and 3 sweep times, on the real ack.Queue over both timeout-list implementations; each entry must get exactly one outcome, duplicates are rejected, no operation touches another entry, and a final far-future sweep must resolve everything pending.",
-        "note": "Deadline/sweep domains keep every (deadline, now) pair >= 1 s apart so rounding inside a second is never judged. Spurious List.Expire results for already-deleted ids are not judged. Keys (s,1), (s,11), (s1,1): the last two run together into the same characters. A timer-list phase drives the deadline list directly (Insert/Delete/Expire over 3 keys with same-second, out-of-order, past and future deadlines, depth 4/5) with the queue's call discipline: a deleted entry is never reported, an armed one exactly once. Round 5: the timer-list phase also inserts every arrival order of 6 and 7 deadlines lying in distinct seconds and sweeps once at 8 instants. Round 6: 40 entries one second apart, one late sweep.",
+        "note": "Deadline/sweep domains keep every (deadline, now) pair >= 1 s apart so rounding inside a second is never judged. Spurious List.Expire results for already-deleted ids are not judged. Keys (s,1), (s,11), (s1,1): the last two run together into the same characters. A timer-list phase drives the deadline list directly (Insert/Delete/Expire over 3 keys with same-second, out-of-order, past and future deadlines, depth 4/5) with the queue's call discipline: a deleted entry is never reported, an armed one exactly once. Round 5: the timer-list phase also inserts every arrival order of 6 and 7 deadlines lying in distinct seconds and sweeps once at 8 instants. Round 6: 40 entries one second apart, one late sweep. Round 7: whole-broker phase other-session-ends (an exchange of each kind in flight while another session ends by each cause at +0.1/+1.2/+2.3 s, judged against the deadline observed at the queue seam); E4 scenario with an expiry callback that registers again; sequential reference runs are watched (a single-thread sequence that does not return is a violation).",
     },
     "C06": {
         "engine": "E1-seqx",
         "technique": "explicit-state BFS to fixpoint over the real allocator vs a set model, plus bounded sequences at the production-range edges",
         "text": "All reachable allocator states for several small ranges (BFS to fixpoint; state = every allocator field + reference outstanding set) under Get/Put of every in-range, boundary and out-of-range value, with a full drain in every state; on the production range 0..65535 every Get/Put sequence of depth 3 (quick) / 4 (thorough) from the states fresh, 65534, 65535 and all identifiers outstanding; the concurrent clause by E4 schedules on the pool; the writer-side clause (identifiers of outbound messages distinct while in flight and released after completion, wrong-type acknowledgements, expiry and session end) by the C03 client-script exploration with a 3-identifier pool.",
-        "note": "The allocator is assumed to behave uniformly in the numeric values between the chosen small ranges and the production range edges; concurrent use is covered by C20. Round 5: the C03 timer phase (with its final drop and empty-pool check) is part of this check too.",
+        "note": "The allocator is assumed to behave uniformly in the numeric values between the chosen small ranges and the production range edges; concurrent use is covered by C20. Round 5: the C03 timer phase (with its final drop and empty-pool check) is part of this check too. Round 7: exhausted-pool probe inside the C03 scripts (nothing goes out under a taken or impossible identifier).",
     },
     "C19": {
         "engine": "E1-seqx",
         "technique": "explicit-state BFS to fixpoint over the real tries vs a map reference model",
         "text": "Every reachable state of topics.Store and subscriptions.Tree over 5 (quick) / 8 (thorough) prefix-sharing keys under insert/replace/remove/upsert and dump+load round trips is visited (BFS to fixpoint, state = exact internal node tree incl. nil-vs-empty child maps + reference map); after every transition Match/Walk on every key, Count and Iterate are compared with a plain map.",
-        "note": "Keys and values are a small alphabet; trie behaviour is assumed uniform in the level strings. Internal tree read through reflection (field `root`). Every transition is also bracketed by two dumps: the one taken before it must still rebuild the state it was taken in after the operation and the later dump. Round 5: the state key of the search is a reflection-based rendering of every field of the store (hidden caches and indexes included, pointer aliasing preserved); key buffers handed to the stores are overwritten after each call.",
+        "note": "Keys and values are a small alphabet; trie behaviour is assumed uniform in the level strings. Internal tree read through reflection (field `root`). Every transition is also bracketed by two dumps: the one taken before it must still rebuild the state it was taken in after the operation and the later dump. Round 5: the state key of the search is a reflection-based rendering of every field of the store (hidden caches and indexes included, pointer aliasing preserved); key buffers handed to the stores are overwritten after each call. Round 7: key a/ in the quick subscription index; phase session-topic-list (the session's filter list and mount-point prefixing as a map over full strings; slices handed out earlier are re-read after every step).",
     },
 }
